@@ -493,6 +493,26 @@ func checkC06(c *Ctx) {
 		}
 		// what the importer sees of a module that shadows one of its own methods in a branch
 		cases = append(cases, handFiles{"as-module/shadowing-leaves-the-export-alone", map[string]string{"main.zn": "导入“模”\n输出（取数）\n", "模.zn": fn + "如果 真：\n\t令取数 = 5\n"}, "num(7)"})
+		// names brought in by 导入 are declarations of the importing file's block: two of them with
+		// the same name collide like any two declarations, whichever import form is used
+		two := map[string]string{"甲.zn": "如何取值？\n\t输出 1\n如何甲专有？\n\t输出 10\n", "乙.zn": "如何取值？\n\t输出 2\n如何备用？\n\t输出 20\n"}
+		with := func(main string) map[string]string {
+			m := map[string]string{"main.zn": main}
+			for k, v := range two {
+				m[k] = v
+			}
+			return m
+		}
+		cases = append(cases,
+			handFiles{"import-collision/whole-modules", with("导入“甲”\n导入“乙”\n输出（取值）\n"), "error:43"},
+			handFiles{"import-collision/item-lists", with("导入“甲”之取值\n导入“乙”之取值、备用\n输出（取值）\n"), "error:43"},
+			handFiles{"import-collision/item-lists-later-item", with("导入“甲”之取值\n导入“乙”之备用、取值\n输出（备用）\n"), "error:43"},
+			handFiles{"import-collision/whole-then-item", with("导入“甲”\n导入“乙”之取值\n输出（取值）\n"), "error:43"},
+			handFiles{"import-collision/item-then-whole", with("导入“甲”之取值\n导入“乙”\n输出（取值）\n"), "error:43"},
+			handFiles{"import-collision/item-vs-own-method", with("导入“乙”之备用\n如何备用？\n\t输出 0\n输出（备用）\n"), "error:43|num(0)|num(20)"},
+			handFiles{"import-collision/none-with-disjoint-items", with("导入“甲”之甲专有\n导入“乙”之取值、备用\n输出【（甲专有），（取值），（备用）】\n"), "list[num(10),num(2),num(20)]"},
+			handFiles{"import-collision/in-a-module", map[string]string{"main.zn": "导入“中”\n输出 1\n", "中.zn": "导入“甲”之取值\n导入“乙”之取值\n令转 = 1\n", "甲.zn": two["甲.zn"], "乙.zn": two["乙.zn"]}, "error:43"},
+		)
 		c.runHandFiles("module-body", cases)
 	}
 	c.runRefCases("scope", progs, ins, shapes, nil, func(i int, src string, ref zr.Result, resp *Resp) {
